@@ -49,4 +49,18 @@ the same list, so they cannot drift apart. -/
 def headerOf (cols : List (String × Rat)) : List String := cols.map (·.1)
 def rowOf (cols : List (String × Rat)) : List Rat := cols.map (·.2)
 
+/-! ### plain attributes of a product / node through a dict (`to_dict` / `from_dict`, generic branch) -/
+
+/-- A stored value is `none` (Python `None`) or a number; `0` is a number. -/
+abbrev AttrDict := List (String × Option Rat)
+
+/-- `to_dict`: every attribute of the list is written, whatever its value. -/
+def attrsToDict (names : List String) (obj : String → Option Rat) : AttrDict := names.map fun a => (a, obj a)
+
+/-- `from_dict`, generic branch: `value = the_dict[attr] if attr in the_dict else default` — presence decides, not truthiness. -/
+def attrFromDict (d : AttrDict) (dflt : Option Rat) (a : String) : Option Rat :=
+  match d.lookup a with
+  | some v => v
+  | none => dflt
+
 end Stockpyl.Serial
